@@ -9,7 +9,13 @@ use crate::suites::ModeSpec;
 pub mod c01;
 pub mod c02;
 pub mod c03;
+pub mod c06;
+pub mod c07;
+pub mod c08;
+pub mod c10;
 pub mod c11;
+pub mod c13;
+pub mod c14;
 pub mod c16;
 
 /// DESIGN §6 alphabets
